@@ -128,7 +128,7 @@ class Scratch:
             raise ToolError("rewrite rule R1 fired %d times, expected 4 "
                             "(crypt.c changed shape; update the rule)" % n)
         open(p, "w").write(new)
-        # R3: goto-instrument's loop-contract pass gives every non-const
+        # R6: goto-instrument's loop-contract pass gives every non-const
         # object of static storage duration a nondeterministic initial value.
         # `static const char *magic = "$sha1$";` (a never-assigned pointer to
         # a literal) would lose its initialiser; the rule adds the `const` the
@@ -139,21 +139,21 @@ class Scratch:
         if os.path.exists(p):
             txt = open(p).read()
             new, n = re.subn(r"static const char \*magic = ", "static const char *const magic = ", txt)
-            self.rules["R3 crypt-pbkdf1-sha1.c 'static const char *magic' -> 'static const char *const magic'"] = n
+            self.rules["R6 crypt-pbkdf1-sha1.c 'static const char *magic' -> 'static const char *const magic'"] = n
             if n != 1:
-                raise ToolError("rewrite rule R3 fired %d times, expected 1 "
+                raise ToolError("rewrite rule R6 fired %d times, expected 1 "
                                 "(crypt-pbkdf1-sha1.c changed shape; update the rule)" % n)
             open(p, "w").write(new)
 
-        # R4: the same for crypt-nthash.c's two never-assigned static pointers.
+        # R7: the same for crypt-nthash.c's two never-assigned static pointers.
         p = os.path.join(lib, "crypt-nthash.c")
         if os.path.exists(p):
             txt = open(p).read()
             new, n1 = re.subn(r"static const char \*magic = ", "static const char *const magic = ", txt)
             new, n2 = re.subn(r"static const uint8_t \*hexconvtab = ", "static const uint8_t *const hexconvtab = ", new)
-            self.rules["R4 crypt-nthash.c 'static const T *magic/hexconvtab' -> '*const'"] = n1 + n2
+            self.rules["R7 crypt-nthash.c 'static const T *magic/hexconvtab' -> '*const'"] = n1 + n2
             if (n1, n2) != (1, 1):
-                raise ToolError("rewrite rule R4 fired %d+%d times, expected 1+1 "
+                raise ToolError("rewrite rule R7 fired %d+%d times, expected 1+1 "
                                 "(crypt-nthash.c changed shape; update the rule)" % (n1, n2))
             open(p, "w").write(new)
 
